@@ -10,6 +10,7 @@ vars == <<l, nv, cnf, node, root, den, store>>
 EnfC06 == {"C06"}
 EnfC07 == {"C07"}
 EnfC11 == {"C11"}
+EnfC10 == {"C10"}
 EnfAll == {"C06", "C07", "C10"}
 Init == l = 2 /\ store = "std" /\ nv = 0 /\ cnf = << >> /\ node = << >> /\ root = [s \in TSlots |-> 0] /\ den = [s \in TSlots |-> TrueFn]
 Step ==
@@ -19,7 +20,7 @@ Step ==
      /\ "panic" \notin DOMAIN e
      /\ CASE e.ev = "treset" -> TDReset(e)
           [] e.ev \in {"compile", "tneg", "tcond"} -> TDProduce(e)
-          [] e.ev \in {"eval", "wmc"} -> TDQuery(e)
+          [] e.ev \in {"eval", "wmc", "count"} -> TDQuery(e)
 Spec == Init /\ [][Step]_vars
 Accepted ==
   LET d == TLCGet("stats").diameter IN
